@@ -22,6 +22,8 @@ names into a different syntactic position / scope:
     lambda_default  lambdas with default-argument capture (default evaluated at definition) and
                     lambdas whose body reads the globals
     condexpr        conditional-expression chains
+    paren_global    global names written in parentheses
+    comp_after_lambda  a lambda defined in the formula, then a list comprehension with the globals
 
 The meaning of a record (see MxSem.EvOps / Den): the contributions of the ops are evaluated left to
 right and summed; a call contributes 7 when the callee returned None; `raise e` raises
@@ -32,21 +34,22 @@ has to rewrite it.
 """
 from . import concretise as cz
 
-# KNOWN DEFECTS of modelx/export/transformer.py found with this table (reproduced on the unchanged
-# library; the regular templates avoid these two spellings, the PROBES exhibit them on purpose and
-# spec/MxExportTrace.tla classifies exactly these situations under KF: labels):
-#   kf_paren      a global name written in parentheses, `(r) + 1`: leave_Name (transformer.py:277-289)
-#                 wraps the Name node including its parentheses -> `self.(r)`, the package does not
-#                 compile (SyntaxError on import).
-#   kf_compscope  Python >= 3.12 (PEP 709): a list/set/dict comprehension has no symbol table of its
-#                 own; should_replace (transformer.py:175-213, the fallback at 188-193) then steps back to the PREVIOUS table
-#                 of the flattened list, which is the table of the nearest nested function / lambda
-#                 defined earlier in the formula instead of the enclosing function -> global names
-#                 inside the comprehension are not rewritten -> NameError in the package.
-PROBES = ["kf_paren", "kf_compscope"]
-
+# Two templates exhibit spellings that modelx/export/transformer.py used to mistranslate (found with
+# this table, reproduced on the library, repaired in /repo by 5b8fa93 and 0ecda46).  They are
+# ordinary templates now; `features` still reports where they occur and spec/MxExportTrace.tla keeps
+# the two predicates that describe exactly these failing situations as regression tripwires
+# (labels KF:C15.parenthesised-global-name / KF:C15.comprehension-after-nested-scope):
+#   paren_global       a global name written in parentheses, `(r) + 1`: leave_Name
+#                      (transformer.py, leave_Name) wrapped the Name node including its parentheses
+#                      -> `self.(r)`, the package did not compile (SyntaxError on import).
+#   comp_after_lambda  Python >= 3.12 (PEP 709): a list/set/dict comprehension has no symbol table of
+#                      its own; should_replace stepped back to the PREVIOUS table of the flattened
+#                      list, i.e. the table of the nearest nested function / lambda defined earlier
+#                      in the formula instead of the enclosing function's -> global names inside
+#                      the comprehension were not rewritten -> NameError in the package.
 TEMPLATES = ["plain", "lambda", "listcomp", "genexp", "dictcomp", "thunks", "nested_def", "nonlocal",
-             "shadow_builtin", "shadow_global", "lambda_default", "condexpr"]
+             "shadow_builtin", "shadow_global", "lambda_default", "condexpr",
+             "paren_global", "comp_after_lambda"]
 
 BUILTIN_LOCALS = ["sum", "max", "len", "min", "abs", "any", "all", "round", "sorted", "iter"]
 NONE_WRAP = "(lambda _t: %d if _t is None else _t)(%%s)" % cz.NONE_CONTRIB
@@ -66,8 +69,8 @@ def names_used(frec):
 def _terms(frec, sigs, inline_raise=False):
     """(expression texts of the ops before the first `none`, ends_with_none, needs_raise_helper)
 
-    inline_raise: `raise` is spelled as an expression without a helper function defined before it
-    (a generator's throw) -- used by the comprehension templates, see KNOWN DEFECT below."""
+    inline_raise: `raise` is spelled as an expression (a generator's throw) instead of a call of a
+    helper function defined at the top of the formula."""
     ps = frec["ps"]
     terms, ends_none, helper = [], False, False
     for op in frec["ops"]:
@@ -166,11 +169,11 @@ def _body(tname, terms, ps, ctx):
                 L.append("_a += (%s if _z == %d else -1 if _z > 99 else 0)" % (t, len(ps)))
             else:
                 L.append("_a += (0 if _z != %d else %s)" % (len(ps), t))
-    elif tname == "kf_paren":
+    elif tname == "paren_global":
         L.append("_a = 0")
         for t in terms:
             L.append("_a += (%s)" % t if t.isidentifier() else "_a += %s" % t)
-    elif tname == "kf_compscope":
+    elif tname == "comp_after_lambda":
         L.append("_n = lambda _u: _u")
         L.append("_a = _n(sum([%s for _k in range(%d)]))" % (_chain(terms), n))
     else:
@@ -180,9 +183,9 @@ def _body(tname, terms, ps, ctx):
 
 def features(frec, tname):
     """Syntactic features of the known defects that the rendering of `frec` in `tname` has."""
-    if tname == "kf_paren" and any(op[0] == "read" and len(op[1]) == 1 for op in frec["ops"]):
+    if tname == "paren_global" and any(op[0] == "read" and len(op[1]) == 1 for op in frec["ops"]):
         return ["paren"]
-    if tname == "kf_compscope":
+    if tname == "comp_after_lambda":
         for op in frec["ops"]:
             if op[0] == "none":
                 break
@@ -213,7 +216,7 @@ def render_t(frec, name, sigs, tname, ctx=None):
         return cz.render(f2, name, sigs)
     ctx = dict(ctx or {})
     ctx["used"] = names_used(frec)
-    terms, ends_none, helper = _terms(frec, sigs, inline_raise=tname in ("listcomp", "dictcomp", "kf_compscope"))
+    terms, ends_none, helper = _terms(frec, sigs, inline_raise=tname in ("dictcomp", "comp_after_lambda"))
     ind = "    "
     catch = frec.get("catch", False)
     pre = ind * 2 if catch else ind
